@@ -886,6 +886,7 @@ func (ex *Exec) execFrom(st *State, b *ssa.BasicBlock, idx int, pred *ssa.BasicB
 					name = funcShort(f)
 				}
 				st.notes = append(st.notes, "go:"+name)
+				ex.set(st, "G|ghost.goStarts|", Add(st.get("G|ghost.goStarts|", SInt), IntLit(1, SInt)))
 				if f := y.Common().StaticCallee(); f != nil && !ex.collect {
 					// the spawned function starts in (at least) the current state: its precondition is an obligation here
 					if fc := ex.eng.contractFor(f); fc != nil {
